@@ -11,16 +11,14 @@ Inductive cls :=
 | CCommaSet        (* a set with more than one element: the token is no "sequence set", it is skipped *)
 | CStar            (* "*" in a set: matches everything / wrong bound *)
 | CReversedRange   (* a:b with a > b matches nothing *)
-| CParenGroup      (* a parenthesised group is one unknown token: skipped *)
-| CNotOrArity      (* NOT / OR take one token plus at most one argument *)
 | CUnknownKey      (* unknown keys are skipped, the reply is OK *)
 | CTextAtom        (* header / body / sent-date evaluation differs from the field semantics on this message *)
 | CQuotedSpace.   (* the command line is split with strings.Fields and re-joined: runs of blanks / tabs inside a quoted string collapse *)
 
 Definition cls_eqb (a b : cls) : bool :=
   match a, b with
-  | CCommaSet, CCommaSet | CStar, CStar | CReversedRange, CReversedRange | CParenGroup, CParenGroup
-  | CNotOrArity, CNotOrArity | CUnknownKey, CUnknownKey
+  | CCommaSet, CCommaSet | CStar, CStar | CReversedRange, CReversedRange
+  | CUnknownKey, CUnknownKey
   | CTextAtom, CTextAtom | CQuotedSpace, CQuotedSpace => true
   | _, _ => false
   end.
@@ -64,8 +62,7 @@ Fixpoint wf_key (k : key) : bool :=
   | KDate _ _ d => date_ok d
   | KNot k' => wf_key k'
   | KOr a b => wf_key a && wf_key b
-  | KGroup l => (fix all (l : list key) : bool := match l with [] => true | k' :: l' => wf_key k' && all l' end) l
-                && match l with [] => false | _ => true end
+  | KGroup l => forallb wf_key l && match l with [] => false | _ => true end
   | KUnknown name => unknown_ok name
   end.
 Definition wf_prog (ks : list key) : bool := match ks with [] => false | _ => forallb wf_key ks end.
@@ -97,7 +94,7 @@ Definition text_agree_on (k : key) (im : Z * smsg) : bool :=
 Definition text_class (k : key) (mb : list smsg) : option cls :=
   if forallb (text_agree_on k) (numbered mb) then None else Some CTextAtom.
 
-(** keys of at most two tokens that may stand under NOT / OR *)
+(** keys other than NOT / OR / parenthesised lists *)
 Definition simple_class (k : key) (mb : list smsg) : option cls :=
   match k with
   | KAll => None
@@ -105,26 +102,25 @@ Definition simple_class (k : key) (mb : list smsg) : option cls :=
   | KSeq s | KUid s => set_class s
   | KHdr _ _ | KHeader _ _ | KBody _ | KDate true _ _ => text_class k mb
   | KText _ | KLarger _ | KSmaller _ | KDate false _ _ => None
-  | KGroup _ => Some CParenGroup
   | KUnknown _ => Some CUnknownKey
-  | KNot _ | KOr _ _ => Some CNotOrArity
-  end.
-Definition arity_ok (k : key) : bool :=
-  match k with
-  | KHeader _ _ | KNot _ | KOr _ _ | KGroup _ | KUnknown _ => false
-  | _ => true
-  end.
-Definition operand_class (k : key) (mb : list smsg) : option cls :=
-  match k with
-  | KGroup _ => Some CParenGroup
-  | KUnknown _ => Some CUnknownKey
-  | _ => if arity_ok k then simple_class k mb else Some CNotOrArity
+  | KGroup _ | KNot _ | KOr _ _ => None                        (* see key_class *)
   end.
 
-Definition key_class (k : key) (mb : list smsg) : option cls :=
+Definition first_class {A} (f : A -> option cls) : list A -> option cls :=
+  fix go (l : list A) : option cls :=
+    match l with
+    | [] => None
+    | x :: l' => match f x with None => go l' | c => c end
+    end.
+
+(** NOT and OR take complete keys and a parenthesised list is evaluated (fix
+    "NOT and OR take complete search keys"): a compound key has the classes of
+    its parts, nothing of its own *)
+Fixpoint key_class (k : key) (mb : list smsg) : option cls :=
   match k with
-  | KNot k' => operand_class k' mb
-  | KOr a b => match operand_class a mb with None => operand_class b mb | c => c end
+  | KNot k' => key_class k' mb
+  | KOr a b => match key_class a mb with None => key_class b mb | c => c end
+  | KGroup l => first_class (fun k' => key_class k' mb) l
   | _ => simple_class k mb
   end.
 
